@@ -169,6 +169,10 @@ fn check_alignment_core(
             "ins-run-split-at-yclip/score-below-path"
         } else if one_open && (pc.del_run_split_by_clip || (filtered && pc.del_run_at_clipped_xend)) {
             "del-run-split-at-xclip/score-below-path"
+        } else if pc.has_zero_len_clip && pc.strict > al.score as i64 {
+            // the traceback went through a zero-length suffix clip and produced a path that is
+            // better than the score the DP reports for it
+            "zero-length-clip-in-path/score-below-path"
         } else {
             "score-differs-from-path"
         };
